@@ -312,5 +312,65 @@ pub fn c14rows(args: &[String]) {
         }
         w.flush().unwrap();
     }
+    // ---- whole frames built around one header value (sizes at every format boundary and at the 128 KiB limit) ----
+    {
+        use crate::frames::{build, Blk, FrameSpec, Lits, SeqMode};
+        let mut w = open("whole", &mut files);
+        const MB: usize = 128 * 1024;
+        let sizes = [0usize, 1, 2, 31, 32, 33, 4095, 4096, 4097, 16383, 16384, 16385, 65535, 65536, MB - 5, MB - 4, MB - 3, MB - 1, MB, MB + 1, 200_000, 262_143];
+        let pre = || (SeqMode::Predef, SeqMode::Predef, SeqMode::Predef);
+        let mut cases: Vec<(&str, usize, Vec<Blk>, u64)> = vec![]; // (what, n, blocks, regenerated size of the block under test)
+        for &n in &sizes {
+            let data: Vec<u8> = (0..n).map(|_| [0u8, 0, 0, 1, 2][rng.gen_range(0..5)]).collect();
+            cases.push(("rawblock", n, vec![Blk::Raw((0..n).map(|i| (i * 7 + 3) as u8).collect())], n as u64));
+            cases.push(("rleblock", n, vec![Blk::Rle(0x5A, n)], n as u64));
+            cases.push(("rawlits", n, vec![Blk::Comp { lits: Lits::Raw((0..n).map(|i| (i * 5 + 1) as u8).collect()), seqs: vec![], modes: pre() }], n as u64));
+            if n > 0 {
+                cases.push(("rlelits", n, vec![Blk::Comp { lits: Lits::Rle(0x33, n), seqs: vec![], modes: pre() }], n as u64));
+                // literals plus one match: the block regenerates n + 3 bytes
+                cases.push(("rlelits_match", n, vec![Blk::Comp { lits: Lits::Rle(0x34, n), seqs: vec![(n as u32, 4, 3)], modes: pre() }], n as u64 + 3));
+            }
+            if (8..=1023).contains(&n) {
+                cases.push(("huf1", n, vec![Blk::Comp { lits: Lits::Huf(data.clone(), false, Some(vec![2, 1]), None), seqs: vec![], modes: pre() }], n as u64));
+            }
+            if n >= 8 {
+                cases.push(("huf4", n, vec![Blk::Comp { lits: Lits::Huf(data.clone(), true, Some(vec![2, 1]), None), seqs: vec![], modes: pre() }], n as u64));
+            }
+        }
+        // sequence counts at the boundaries of the 1, 2 and 3 byte encodings (one literal, then n matches of length 3)
+        for n in [1usize, 2, 126, 127, 128, 129, 254, 255, 256, 257, 0x7EFF, 0x7F00, 0x7F01, 40000, 43690, 43691] {
+            let mut seqs = vec![(1u32, 4u32, 3u32)];
+            seqs.extend(std::iter::repeat((0u32, 4u32, 3u32)).take(n - 1));
+            cases.push(("seqcount", n, vec![Blk::Comp { lits: Lits::Raw(vec![b'q']), seqs, modes: pre() }], 1 + 3 * n as u64));
+        }
+        for (what, n, blocks, regen) in cases {
+            let stored_too_big = match &blocks[0] { Blk::Raw(d) => d.len() > MB, _ => false };
+            let spec = FrameSpec { name: format!("{what}_{n}"), win_desc: Some(0x50), cks: true, dict_id: None, fcs: None, blocks, dict: vec![], rep: [1, 4, 8], fcs_width: None, dict_tables: None };
+            let b = match std::panic::catch_unwind(std::panic::AssertUnwindSafe(|| build(&spec))) {
+                Ok(b) => b,
+                Err(_) => continue,
+            };
+            let stored = b.blocks[0].c;
+            let legal = regen <= MB as u64 && stored <= MB && !stored_too_big;
+            let lib = zstd::stream::decode_all(&b.bytes[..]);
+            // the reference decoder must agree with the format's limits, else the case itself is wrong (dropped, counted)
+            if lib.is_ok() != legal || (legal && lib.as_ref().unwrap() != &b.content) {
+                *counts.entry("whole_dropped".to_string()).or_insert(0) += 1;
+                continue;
+            }
+            let res = crate::zf::decode_everywhere(&b.bytes, &[], b.content.len());
+            for (api, r) in res {
+                let (acc, content_ok, err) = match &r {
+                    Ok(o) => (true, legal && *o == b.content, String::new()),
+                    Err(e) => (false, false, e.chars().take(120).collect()),
+                };
+                if err.starts_with("panic") && panics.len() < 10 {
+                    panics.push(json!({"what": format!("whole frame {what} n={n} via {api}"), "panic": err}));
+                }
+                row!(w, "whole", json!({"k": "whole", "what": what, "n": n, "regen": regen, "stored": stored, "api": api, "accepted": acc, "content_ok": content_ok, "err": err}));
+            }
+        }
+        w.flush().unwrap();
+    }
     write_json(&args[3], &json!({"rows": counts, "panics": panics, "files": files}));
 }
